@@ -133,12 +133,50 @@ def expected_records(spec, cols):
 
 CATALOG_PRES = ("catalog_other", "catalog_fewer", "catalog_same", "catalog_more")
 
+# ---- the pre-existing state of the cache path, concretely.  "Is a catalog cache" = a real directory whose listing
+# holds the marker file (yaw.catalog.catalog.PATCH_INFO_FILE, patch_ids.bin: written last by CatalogWriter.finalize,
+# required by read_patch_ids).  Each state is a listing / a file / a symbolic link; its Coq term (Model/FailStop.v,
+# fspath) is built by path_term.  {k} = the number of patches of the old catalog data in it.
+PATH_STATES = {
+    "absent": "FAbsent", "noparent": "FNoParent", "parentfile": "FNoParent", "file": "FFile",
+    # directories WITHOUT the marker: never a cache, whatever their entries are called
+    "dir_other": "(FDir [EOther; EOther])",                    # notes.txt, sub/
+    "dir_empty": "(FDir [])",
+    "dir_patchfiles": "(FDir [EPatchNamed; EPatchNamed])",     # user files patch_notes.txt, patch_2023-11.diff
+    "dir_patchdirs": "(FDir [EPatchNamed; EPatchNamed; EPatchNamed])",   # sub-directories patch_0/ patch_1/ (empty), patch_2/ (a file)
+    "dir_remains": "(FDir (map EPatch (seq 101 {k})))",        # an interrupted creation: patch data, the marker was never written
+    "dir_holds_catalog": "(FDir [EPatchNamed])",               # its only entry patch_0/ is itself a complete catalog
+    # directories WITH the marker: caches (may be overwritten), valid or not
+    "dir_marker_only": "(FDir [EMarker])",
+    "dir_marker_foreign": "(FDir [EMarker; EOther; EOther])",  # the marker next to notes.txt, sub/ - no patch data
+    "catalog_foreign": "(FDir (catalog_entries {k} [EOther; EPatchNamed; EOther]))",  # valid catalog + notes.txt, patch_notes.txt, sub/
+    "catalog_other": "(FDir (catalog_entries {k} []))", "catalog_fewer": "(FDir (catalog_entries {k} []))",
+    "catalog_same": "(FDir (catalog_entries {k} []))", "catalog_more": "(FDir (catalog_entries {k} []))",
+    # symbolic links (the thing pointed to lives outside the directory of the cache path)
+    "link_catalog": "(FLink (FDir (catalog_entries {k} [])))",
+    "link_dir_other": "(FLink (FDir [EOther; EOther]))",
+    "link_dir_empty": "(FLink (FDir []))",
+    "link_patchfiles": "(FLink (FDir [EPatchNamed; EPatchNamed]))",
+    "link_file": "(FLink FFile)",
+    "link_dangling": "(FLink FAbsent)",
+}
+LINK_PRES = tuple(k for k in PATH_STATES if k.startswith("link_"))
+# existing paths that are not a catalog cache: any creation has to raise and leave them as they are
+NONCACHE_PRES = ("file", "dir_other", "dir_empty", "dir_patchfiles", "dir_patchdirs", "dir_remains", "dir_holds_catalog",
+                 "link_dir_other", "link_dir_empty", "link_patchfiles", "link_file")
+# paths at which a VALID old catalog (of old_npatch patches) can be opened before the call
+OLD_CATALOG_PRES = CATALOG_PRES + ("catalog_foreign", "link_catalog")
+
+
+def path_term(spec):
+    return PATH_STATES[spec["pre"]].replace("{k}", str(old_npatch(spec) if spec["pre"] in OLD_CATALOG_PRES + ("dir_remains",) else 0))
+
 
 def old_npatch(spec):
     """number of patches (ids 0..k-1) of the pre-existing valid catalog, relative to the ncent patches (ids
     0..ncent-1) the new creation writes: fewer / the same / more"""
     pre, ncent = spec["pre"], spec.get("ncent", 3)
-    if pre == "catalog_other":
+    if pre in ("catalog_other", "catalog_foreign", "link_catalog", "dir_remains"):
         return 2
     if pre == "catalog_fewer":
         return max(1, ncent - 2)
@@ -212,6 +250,68 @@ class FrameDouble:
 
 
 # ----------------------------------------------------------------------------- pre-existing state
+def marker_name(yaw):
+    import yaw.catalog.catalog as cc
+    return getattr(cc, "PATCH_INFO_FILE", "patch_ids.bin")
+
+
+def write_old_catalog(yaw, path, npatch):
+    import pandas as pd
+    yaw.Catalog.from_dataframe(path, pd.DataFrame(foreign_input(npatch)), ra_name="ra", dec_name="dec", weight_name="w",
+                               patch_name="pid", max_workers=1, chunksize=2)
+
+
+def write_text(path, text):
+    with open(path, "w") as f:
+        f.write(text)
+
+
+def fill_directory(kind, path, yaw, npatch=2):
+    """make `path` (absent so far) a directory of the given kind"""
+    import shutil
+    if kind in ("catalog", "catalog_foreign", "dir_remains", "dir_marker_only", "dir_marker_foreign"):
+        write_old_catalog(yaw, path, npatch)
+        marker = marker_name(yaw)
+        assert os.path.isfile(os.path.join(path, marker)), os.listdir(path)
+        if kind == "dir_remains":
+            os.unlink(os.path.join(path, marker))
+        elif kind in ("dir_marker_only", "dir_marker_foreign"):
+            for name in os.listdir(path):
+                if name != marker:
+                    shutil.rmtree(os.path.join(path, name))
+        if kind in ("catalog_foreign", "dir_marker_foreign"):
+            os.makedirs(os.path.join(path, "sub"))
+            write_text(os.path.join(path, "notes.txt"), "notes that exist only here\n")
+            write_text(os.path.join(path, "sub", "more.dat"), "0123456789\n")
+        if kind == "catalog_foreign":
+            write_text(os.path.join(path, "patch_notes.txt"), "a user file that is merely called patch_...\n")
+        return
+    os.makedirs(path)
+    if kind == "dir_other":
+        os.makedirs(os.path.join(path, "sub"))
+        write_text(os.path.join(path, "notes.txt"), "unrelated content that is not a catalog\n")
+        write_text(os.path.join(path, "sub", "more.dat"), "0123456789\n")
+    elif kind == "dir_empty":
+        os.chmod(path, 0o700)
+    elif kind == "dir_patchfiles":
+        write_text(os.path.join(path, "patch_notes.txt"), "notes that exist only here\n")
+        write_text(os.path.join(path, "patch_2023-11.diff"), "--- a/file\n+++ b/file\n@@ precious work @@\n")
+    elif kind == "dir_patchdirs":
+        os.makedirs(os.path.join(path, "patch_0"))
+        os.makedirs(os.path.join(path, "patch_1"))
+        os.makedirs(os.path.join(path, "patch_2"))
+        write_text(os.path.join(path, "patch_2", "table.csv"), "1,2,3\n")
+    elif kind == "dir_holds_catalog":
+        write_old_catalog(yaw, os.path.join(path, "patch_0"), npatch)
+    else:
+        raise ValueError(kind)
+
+
+def link_target(spec):
+    """where a symbolic link at the cache path points to: outside the directory the cache path lies in"""
+    return os.path.join(os.path.dirname(os.path.dirname(spec["cache"])), "elsewhere", "real")
+
+
 def prepare_target(spec, yaw):
     """bring the cache path into the pre-existing state the case asks for"""
     import shutil
@@ -228,27 +328,88 @@ def prepare_target(spec, yaw):
         return
     os.makedirs(base, exist_ok=True)
     if os.path.lexists(cache):
-        shutil.rmtree(cache) if os.path.isdir(cache) else os.unlink(cache)
+        shutil.rmtree(cache) if os.path.isdir(cache) and not os.path.islink(cache) else os.unlink(cache)
+    if spec.get("nest"):
+        # the cache path lies in a directory of the user's own: whatever happens to the cache path, this stays
+        os.makedirs(os.path.join(base, "sub"))
+        os.makedirs(os.path.join(base, "patch_7"))
+        write_text(os.path.join(base, "notes.txt"), "the user's own directory around the cache path\n")
+        write_text(os.path.join(base, "sub", "more.dat"), "0123456789\n")
+        write_text(os.path.join(base, "patch_7", "data.bin"), "not catalog data\n")
+        write_text(os.path.join(base, "patch_list.txt"), "patch_7\n")
     if pre == "absent":
         return
     if pre == "file":
-        with open(cache, "w") as f:
-            f.write("precious regular file\n")
-    elif pre == "dir_other":
-        os.makedirs(os.path.join(cache, "sub"))
-        with open(os.path.join(cache, "notes.txt"), "w") as f:
-            f.write("unrelated content that is not a catalog\n")
-        with open(os.path.join(cache, "sub", "more.dat"), "w") as f:
-            f.write("0123456789\n")
-    elif pre == "dir_empty":
-        os.makedirs(cache)
+        write_text(cache, "precious regular file\n")
     elif pre in CATALOG_PRES:
-        import pandas as pd
-        c = foreign_input(old_npatch(spec))
-        yaw.Catalog.from_dataframe(cache, pd.DataFrame(c), ra_name="ra", dec_name="dec", weight_name="w",
-                                   patch_name="pid", max_workers=1, chunksize=2)
+        fill_directory("catalog", cache, yaw, old_npatch(spec))
+    elif pre in LINK_PRES:
+        real = link_target(spec)
+        os.makedirs(os.path.dirname(real), exist_ok=True)
+        if os.path.lexists(real):
+            shutil.rmtree(real) if os.path.isdir(real) else os.unlink(real)
+        what = pre[len("link_"):]
+        if what == "file":
+            write_text(real, "precious regular file behind a link\n")
+        elif what == "dangling":
+            pass
+        elif what == "patchfiles":
+            fill_directory("dir_patchfiles", real, yaw)
+        else:
+            fill_directory(what, real, yaw, old_npatch(spec) if what == "catalog" else 2)
+        os.symlink(os.path.relpath(real, base), cache)
+    elif pre in PATH_STATES:
+        fill_directory(pre, cache, yaw, old_npatch(spec) if pre in ("catalog_foreign", "dir_remains") else 2)
     else:
         raise ValueError(pre)
+
+
+# ----------------------------------------------------------------------------- what is on disk (driver: before; harness: after)
+def sha(path):
+    import hashlib
+    h = hashlib.sha1()
+    with open(path, "rb") as f:
+        h.update(f.read())
+    return h.hexdigest()
+
+
+def snapshot(path, skip=None):
+    """recursive listing with the SHA-1 of every file; symbolic links are recorded as links (a link at the top is
+    recorded together with what it points to); a directory at the top with its inode and permission bits"""
+    if os.path.islink(path):
+        to = os.readlink(path)
+        real = os.path.normpath(os.path.join(os.path.dirname(path), to))
+        return ["LINK", to, snapshot(real)]
+    if not os.path.lexists(path):
+        return "ABSENT"
+    if not os.path.isdir(path):
+        return ["FILE", sha(path)]
+    st = os.stat(path)
+    out = {"./": "DIR inode=%d mode=%o" % (st.st_ino, st.st_mode & 0o7777)}
+    for root, dirs, files in os.walk(path):
+        rel = os.path.relpath(root, path)
+        if rel == "." and skip is not None:
+            dirs[:] = [d for d in dirs if not skip(d)]
+            files = [f for f in files if not skip(f)]
+        for d in dirs:
+            full = os.path.join(root, d)
+            out[os.path.normpath(os.path.join(rel, d)) + "/"] = ("LINK " + os.readlink(full)) if os.path.islink(full) else "DIR"
+        for f in files:
+            full = os.path.join(root, f)
+            out[os.path.normpath(os.path.join(rel, f))] = ("LINK " + os.readlink(full)) if os.path.islink(full) else sha(full)
+    return out
+
+
+def snap_case(spec):
+    """the cache path itself, and everything around it: the directory it lies in without the cache entry (and
+    without the harness's own temporary input file <cache>.src.hdf5)"""
+    cache = spec["cache"]
+    base = os.path.dirname(cache)
+    name = os.path.basename(cache)
+    around = snapshot(base, skip=lambda n: n == name or n == name + ".src.hdf5")
+    if isinstance(around, dict):
+        around.pop("./", None)         # adding / removing the cache entry changes nothing of the directory's identity
+    return {"cache": snapshot(cache), "around": around}
 
 
 # ----------------------------------------------------------------------------- the call
@@ -451,6 +612,11 @@ def main():
     install_injection(spec)
     if spec["patch"] == "num":
         record_kmeans_centres()
+    # the state of the path BEFORE the call, taken here (nothing runs between this and the call)
+    tmp = out_path + ".before.tmp"
+    with open(tmp, "w") as fh:
+        json.dump(snap_case(spec), fh)
+    os.replace(tmp, out_path + ".before")
     print("READY", flush=True)
     t0 = time.time()
     res = {}
